@@ -197,6 +197,27 @@ def hashable : Json → Bool
   | .obj _ => false
   | _ => true
 
+/-- one dependency block of `_verify_dependencies`: every entry's name is looked up in, and added
+to, the names seen so far -/
+def depBlockStep (deps : Json) (acc : Option (List Json) × Outcome) (ty : String) :
+    Option (List Json) × Outcome :=
+  match acc with
+  | (none, o) => (none, o)
+  | (some seen, _) =>
+    match deps.get? ty with
+    | none => (some seen, .accepted)
+    | some block =>
+      match depNames block with
+      | none => (none, .crash)
+      | some names =>
+        names.foldl (fun (a : Option (List Json) × Outcome) nm =>
+          match a with
+          | (none, o) => (none, o)
+          | (some s, _) =>
+            if !hashable nm then (none, .crash)
+            else if s.any (Json.beq nm) then (none, .rejected)
+            else (some (s ++ [nm]), .accepted)) (some seen, .accepted)
+
 /-- `_verify_variables` + `_verify_dependencies` -/
 def verifyEnvNames (env : Json) : Outcome :=
   let vars := objItems ((env.get? "variables").getD (.obj []))
@@ -206,24 +227,8 @@ def verifyEnvNames (env : Json) : Outcome :=
     match env.get? "dependencies" with
     | none => .accepted
     | some deps =>
-      let step (acc : Option (List Json) × Outcome) (ty : String) : Option (List Json) × Outcome :=
-        match acc with
-        | (none, o) => (none, o)
-        | (some seen, _) =>
-          match deps.get? ty with
-          | none => (some seen, .accepted)
-          | some block =>
-            match depNames block with
-            | none => (none, .crash)
-            | some names =>
-              names.foldl (fun (a : Option (List Json) × Outcome) nm =>
-                match a with
-                | (none, o) => (none, o)
-                | (some s, _) =>
-                  if !hashable nm then (none, .crash)
-                  else if s.any (Json.beq nm) then (none, .rejected)
-                  else (some (s ++ [nm]), .accepted)) (some seen, .accepted)
-      (["path", "git", "spack"].foldl step (some seen0, .accepted)).2
+      -- the two list-valued blocks (repair "fix: _verify_dependencies no longer crashes ...")
+      (["paths", "git"].foldl (depBlockStep deps) (some seen0, .accepted)).2
 
 /-- the name-level rules of `_verify_steps` after a step passed the schema -/
 def stepNameOf (s : Json) : Json := (s.get? "name").getD .null
@@ -231,13 +236,17 @@ def stepNameOf (s : Json) : Json := (s.get? "name").getD .null
 def stepDepends (s : Json) : List Json :=
   arrItems (((s.get? "run").getD (.obj [])).get? "depends" |>.getD (.arr []))
 
+def sourceName : Str := "_source".toList
+
 def verifySteps (sch : Schema) : List Json → List Json → Outcome
   | _, [] => .accepted
   | seen, s :: rest =>
     if !valid schemaFuel sch s then .rejected
     else
       let nm := stepNameOf s
-      if seen.any (Json.beq nm) then .rejected
+      -- `_source` is the root the study graph adds itself (repair "fix: reject the reserved step name")
+      if Json.beq nm (.str sourceName) then .rejected
+      else if seen.any (Json.beq nm) then .rejected
       else if (stepDepends s).any (fun d => match d, nm with
           | .str ds, .str ns => stripCombos ds == ns
           | _, _ => false) then .rejected
@@ -271,8 +280,6 @@ def envNames (env : Json) : Option (List Str) :=
 def nodupStr : List Str → Bool
   | [] => true
   | a :: as => !as.contains a && nodupStr as
-
-def sourceName : Str := "_source".toList
 
 /-- `add_edge(dep, step)` for the dependencies of one step, in order: an unknown
 parent is a `ValueError`; a step that took the reserved name `_source` closes a
